@@ -36,7 +36,7 @@ CLAIMED["C13"] = ("5/C13",
    "SSA guard/dominance rules with constant evaluation + effect analysis")
 
 CLAIMED["C05"] = ("5/C05",
-   "Static rules over x/poolmanager (and the gamm / concentrated-liquidity swap entries) decide: execution and estimate hops apply the same-direction taker-fee formula to the same denom pair, use the pool's spread factor and chain hop outputs; rule L: every swap entry taking a caller limit returns only values compared with that limit on a failing branch or produced by a callee that received it, inner hops get the neutral limit and only the last hop the caller's; split routes sum legs and compare the sum; the taker-fee step's result depends only on quantities the estimate has (one recorded known finding: reduced-fee whitelist). Also: the concentrated swap-loop transition is flag-independent and a failed gamm settlement transfer fails the route.",
+   "Static rules over x/poolmanager (and the gamm / concentrated-liquidity swap entries) decide: execution and estimate hops apply the same-direction taker-fee formula to the same denom pair, use the pool's spread factor and chain hop outputs; rule L: every swap entry taking a caller limit returns only values compared with that limit on a failing branch or produced by a callee that received it, inner hops get the neutral limit and only the last hop the caller's; split routes sum legs and compare the sum; the taker-fee step's result depends only on quantities the estimate has (one recorded known finding: reduced-fee whitelist). Also: the concentrated swap-loop transition is flag-independent and a failed gamm settlement transfer fails the route. The Estimate* queries hand the request's routes and coin to the fee-including estimator (one repaired defect: the exact-out primitive-types query estimated over an empty route list).",
    "Not covered: value-level equality of routed result and composition across pool types, state-untouched for cosmwasm pools, routes visiting a pool twice. Trusted: PoolModuleI implementations outside gamm/CL, SDK tx atomicity, go/ssa.",
    "SSA origin-term rules incl. limit-on-returned-value (L), phi-edge case rules, sibling agreement")
 
@@ -46,7 +46,7 @@ CLAIMED["C19"] = ("5/C19",
    "AST/type-based determinism lint, genesis field-coverage analysis, keeper-field write scan with call-graph classification")
 FIX_COMMITS.append("59282cb358")
 FIX_COMMITS.append("d2a0ad067f")
-FIX_COMMITS += ["35b50d1c51", "5b670324a2", "bcb8c3a391", "1a10ebd7f7"]
+FIX_COMMITS += ["35b50d1c51", "5b670324a2", "bcb8c3a391", "1a10ebd7f7", "f4a77651e5"]
 
 CLAIMED["C20"] = ("5/C20",
    "Interprocedural guard propagation (rule GI) over the workspace call graph: for all 37 message handlers of concentrated-liquidity, lockup, superfluid, tokenfactory and valset-pref (signer field read from each message's GetSigners), every bounded-depth call path to a privileged sink (lock, position and denom mutators) carries a branch that compares a signer-identity value with the stored object's owner/admin and fails on mismatch — directly, via a checked guard helper, inside the sink on all success paths, or modulo the governance-module equality — with three creation/own-index exemptions listed with side conditions. Also: tokenfactory mint/burn/force-transfer never touch protected module accounts (guards on the very addresses credited/debited, on every iteration over all protected modules; the protected set holds every module account's address). Also: the module-account scan of forceTransfer covers the whole protected list; tokenfactory import writes every exported authority record.",
@@ -73,7 +73,7 @@ CLAIMED["C18"] = ("5/C18",
    "SSA origin-term / guard-disjunct / order rules")
 
 CLAIMED["C10"] = ("5/C10",
-   "Static rules over x/twap decide: accumulators advance by the old record's last spot price (P0->P0, P1->P1, log2(P0)->geometric) times the canonical-ms difference between the record's time and the new time; the arithmetic strategy reads the quote side's accumulator; the geometric result is inverted exactly under (negative & quote0) or (non-negative & not quote0) (path-sensitive boolean-join expansion); the three error-flag comparisons exist; zero price stamps the error time; lookup is reverse iteration ending at t; pruning deletes only after skipping the newest record; new records update both indexes. Also: path-resolved cases of getSpotPrices (error or clamp => error time = block time, value = maximum; neither => previous error time); EndBlock updates every changed pool. Also: the key builders of the record indexes agree on a layout in which pool id and denoms are closed by the separator.",
+   "Static rules over x/twap decide: accumulators advance by the old record's last spot price (P0->P0, P1->P1, log2(P0)->geometric) times the canonical-ms difference between the record's time and the new time; the arithmetic strategy reads the quote side's accumulator; the geometric result is inverted exactly under (negative & quote0) or (non-negative & not quote0) (path-sensitive boolean-join expansion); the three error-flag comparisons exist; zero price stamps the error time; lookup is reverse iteration ending at t; pruning deletes only after skipping the newest record; new records update both indexes. Also: path-resolved cases of getSpotPrices (error or clamp => error time = block time, value = maximum; neither => previous error time); EndBlock updates every changed pool. Also: the key builders of the record indexes agree on a layout in which pool id and denoms are closed by the separator. The TWAP queries pass the request's interval to the keeper; the two-denom record lookup orders the denoms canonically.",
    "Not covered: TWAP = time-weighted mean as a value, min/max bounds, reciprocity, precision (integral over histories). Trusted: Exp2/log2 accuracy, go/ssa.",
    "SSA origin-term rules + path-sensitive guard disjuncts")
 
